@@ -504,9 +504,12 @@ def ducowicz(rhol=0.0, rhor=1.0, pl=0.0, pr=1.0,
     c = 1./(bl + br)
 
     # Case C : ustar-umin >0, ustar-umax > 0
+    # (only when its quadratic has a real root: with a negative discriminant
+    # the clamped dd = 0 gives the weighted mean of umin and umax, which
+    # passes the sign test when umin == umax although the root is in case D)
     dd = sqrt(max(0.0, a-d))
     ustar = (b+dd)*c
-    if (((ustar-umin) >= 0) and ((ustar-umax) >= 0.0)):
+    if (((a-d) >= 0.0) and ((ustar-umin) >= 0) and ((ustar-umax) >= 0.0)):
         pstar = 0.5 * (plmin+prmin + br*abs(ustar-umin)*(ustar-umin)
                        - bl*abs(ustar-umax)*(ustar-umax))
         pstar = max(pstar, 0.0)
